@@ -74,6 +74,9 @@ def public_calls(M, basis, extra):
     nuc, Z = extra["nuc"], extra["Z"]
     calls = {
         "overlap_integral": (lambda: m["gbasis.integrals.overlap"].overlap_integral(basis), lambda: m["gbasis.integrals.overlap"].overlap_integral(basis, tol_screen=True)),
+        "overlap_integral/screened": (lambda: m["gbasis.integrals.overlap"].overlap_integral(basis, tol_screen=extra["tol"]), lambda: m["gbasis.integrals.overlap"].overlap_integral(basis, tol_screen="x")),
+        # float runs only: a tolerance of exactly zero is legal (nothing is screened; numpy warns about log(0))
+        "overlap_integral/tol-zero": (lambda: m["gbasis.integrals.overlap"].overlap_integral(basis, tol_screen=0.0), lambda: m["gbasis.integrals.overlap"].overlap_integral(basis, tol_screen="x")),
         "overlap_integral/transform": (lambda: m["gbasis.integrals.overlap"].overlap_integral(basis, transform=U), lambda: m["gbasis.integrals.overlap"].overlap_integral([1])),
         "overlap_integral_asymmetric": (lambda: m["gbasis.integrals.overlap_asymm"].overlap_integral_asymmetric(basis, basis[:1]), lambda: m["gbasis.integrals.overlap_asymm"].overlap_integral_asymmetric(basis, 3)),
         "kinetic_energy_integral": (lambda: m["gbasis.integrals.kinetic_energy"].kinetic_energy_integral(basis), lambda: m["gbasis.integrals.kinetic_energy"].kinetic_energy_integral(None)),
@@ -103,9 +106,15 @@ def public_calls(M, basis, extra):
 
 class Purity:
     function = "every public integral / evaluation / density function (frame conditions on call sequences)"
+    fp = True  # the same frame conditions on the unmodified float64 code for a few templates (bounded), incl. arguments
+    fp_nsamp = (1, 1)  # that have no symbolic counterpart (a tolerance of exactly zero)
+    fp_domain = {"zero_prob": 0.0}
+
+    def fp_shapes(self, tier):
+        return [dict(fn=n) for n in ("overlap_integral/tol-zero", "overlap_integral/screened", "evaluate_density_gradient", "electrostatic_potential")]
 
     def shapes(self, tier):
-        names = ["overlap_integral", "overlap_integral/transform", "overlap_integral_asymmetric", "kinetic_energy_integral", "momentum_integral",
+        names = ["overlap_integral", "overlap_integral/screened", "overlap_integral/transform", "overlap_integral_asymmetric", "kinetic_energy_integral", "momentum_integral",
                  "angular_momentum_integral", "moment_integral", "point_charge_integral", "nuclear_electron_attraction_integral",
                  "electron_repulsion_integral", "evaluate_basis", "evaluate_deriv_basis", "evaluate_deriv_basis/direct", "evaluate_deriv_density",
                  "evaluate_density_using_evaluated_orbs",
@@ -124,7 +133,7 @@ class Purity:
         basis, params = build_basis(M)
         nfun = 1 + 3
         extra = dict(pts=M.vec("R", (1, 3)), q=M.vec("q", 1), C=M.vec("C", 3), orders=np.array([[1, 0, 1]]), dm=sym_dm(M, nfun), U=M.vec("U", (2, nfun)),
-                     nuc=M.vec("Rn", (1, 3)), Z=M.vec("Z", 1), thr=M.scalar(M.pos("thr")), orbs=M.vec("orb", (nfun, 1)))
+                     nuc=M.vec("Rn", (1, 3)), Z=M.vec("Z", 1), thr=M.scalar(M.pos("thr")), orbs=M.vec("orb", (nfun, 1)), tol=M.scalar(M.pos("eps")))
         calls = public_calls(M, basis, extra)
         tracked = dict(extra)
         tracked["basis"] = basis
@@ -160,6 +169,8 @@ class Purity:
         fn = shape["fn"]
         if fn == "*raising-only*":
             for name, (f, invalid) in calls.items():
+                if M.symbolic and name == "overlap_integral/tol-zero":
+                    continue
                 before = snapshot()
                 M.raises("purity/%s/invalid-call-raises" % name, invalid, (TypeError, ValueError, AttributeError, IndexError, AssertionError))
                 frame("purity/%s/after-raise" % name, before)
